@@ -3,6 +3,7 @@ package props
 import (
 	"encoding/json"
 	"fmt"
+	"math/big"
 	"strings"
 
 	"github.com/cockroachdb/apd/v3"
@@ -131,6 +132,35 @@ func c06Run(e *core.Env) {
 	}
 	skipP0 := func(o dop, cc CtxCase) bool {
 		return cc.C.Precision == 0 && !p0Op[o.name] && !strings.Contains(o.name, ".") && !strings.HasPrefix(o.name, "Modf")
+	}
+	// constructors and BigInt-taking entry points: the *BigInt argument is an input and must stay bit-for-bit unchanged
+	for bi := range c16Alphabet {
+		if !e.Mine(int64(bi)) {
+			continue
+		}
+		for _, heap := range []bool{false, true} {
+			if heap && c16Alphabet[bi].BitLen() > 128 {
+				continue
+			}
+			arg, _ := mkBig(c16Arg{Idx: bi, Heap: heap})
+			before := snapBig(arg)
+			d := apd.NewWithBigInt(arg, -3)
+			e.TransOnly(1)
+			e.Outcome("NewWithBigInt/argument-unchanged", false)
+			if after := snapBig(arg); after != before {
+				e.Fail("NewWithBigInt", "ctor", purityCase{Op: "NewWithBigInt", Hist: c16Alphabet[bi].String()}, fmt.Sprintf("NewWithBigInt(%s, -3) modified its coefficient argument: %s -> %s", shortBig(c16Alphabet[bi]), before, after))
+			}
+			want := new(big.Int).Abs(c16Alphabet[bi])
+			if d.Coeff.MathBigInt().Cmp(want) != 0 || d.Negative != (c16Alphabet[bi].Sign() < 0) || d.Exponent != -3 || d.Form != apd.Finite {
+				e.Fail("NewWithBigInt", "ctor", purityCase{Op: "NewWithBigInt", Hist: c16Alphabet[bi].String()}, fmt.Sprintf("NewWithBigInt(%s, -3) = %s", shortBig(c16Alphabet[bi]), rawStr(d)))
+			}
+			// NumDigits and the Decimal's own coefficient accessors must not write either
+			n := apd.NumDigits(arg)
+			_ = n
+			if after := snapBig(arg); after != before {
+				e.Fail("NumDigits", "ctor", purityCase{Op: "NumDigits", Hist: c16Alphabet[bi].String()}, fmt.Sprintf("NumDigits(%s) modified its argument", shortBig(c16Alphabet[bi])))
+			}
+		}
 	}
 	// setters (no Decimal operand)
 	for si, o := range setterDops {
@@ -340,6 +370,13 @@ func firstDiffStr(a, b string) string {
 	return fmt.Sprintf("at offset %d: ...%s... became ...%s...", i, ca[lo:], cb[lo:])
 }
 
+// snapBig is the deep snapshot of a BigInt (hidden representation included).
+func snapBig(z *apd.BigInt) string {
+	var d apd.Decimal
+	d.Coeff = *z // struct copy: shares the heap pointer, which is what we want to look at
+	return deepSnap(&d)
+}
+
 func rawJ(j DecJ) string {
 	return fmt.Sprintf("{form=%d neg=%v coef=%s exp=%d}", j.Form, j.Neg, j.Coef, j.Exp)
 }
@@ -351,6 +388,20 @@ func c06Replay(kind string, raw json.RawMessage) string {
 	var p purityCase
 	if err := json.Unmarshal(raw, &p); err != nil {
 		return "bad replay file"
+	}
+	if kind == "ctor" {
+		b, ok := new(big.Int).SetString(p.Hist, 10)
+		if !ok {
+			return "bad replay file"
+		}
+		arg := new(apd.BigInt).SetMathBigInt(b)
+		before := snapBig(arg)
+		apd.NewWithBigInt(arg, -3)
+		apd.NumDigits(arg)
+		if after := snapBig(arg); after != before {
+			return fmt.Sprintf("the coefficient argument was modified: %s -> %s", before, after)
+		}
+		return ""
 	}
 	if kind == "globals" {
 		return "re-run ./run.sh C06 (the package-level snapshot is compared across a batch of operations: " + p.Hist + ")"
